@@ -20,7 +20,8 @@ DEVIATIONS = [
     "subtype-element", "xsi-type-on-record", "str-typed", "nested-xmlns", "other-xsd-prefix", "multi-member",
     "comments", "prov-other", "default-ns", "bool-01", "time-Z", "int-as-long", "lang-with-type", "unsorted-extras",
     "shadowed-root-prefix", "comment-in-text", "cdata-text", "charref-text",
-    "outer-comment", "pi-in-record", "pi-in-text",
+    "outer-comment", "pi-in-record", "pi-in-text", "empty-lang", "xsi-type-on-time", "time-end-of-day",
+    "latin1-declaration",
 ]
 
 
@@ -64,8 +65,13 @@ def value_xml(a, v, namer, sites, xsdp):
         iso = v[1]
         if iso.endswith("+00:00") and sites.on("time-Z"):
             iso = iso[:-6] + "Z"
-        return "", iso
+        if "T00:00:00" in iso and "." not in iso and sites.on("time-end-of-day"):
+            from .foreign_json import end_of_day
+            iso = end_of_day(iso)
+        return (' xsi:type="%s:dateTime"' % xsdp) if sites.on("xsi-type-on-time") else "", iso
     if k == "str":
+        if sites.on("empty-lang"):
+            return ' xml:lang=""', v[1]
         if local != "label" and sites.on("str-typed"):
             return ' xsi:type="%s:string"' % xsdp, v[1]
         return "", v[1]
@@ -250,7 +256,9 @@ def write(doc, prefixes, dialect=(), default=None):
             decl += " xmlns:%s=%s" % (p, quoteattr("http://decoy.example/" + p + "/"))
         else:
             decl += " xmlns%s=%s" % ("" if p is None else ":" + p, quoteattr(base))
-    lines = ['<?xml version="1.0" encoding="UTF-8"?>', "<prov:document%s>" % decl]
+    # (the text is handed over as a str: what the declaration says about its encoding is moot)
+    enc = "ISO-8859-1" if sites.on("latin1-declaration") else "UTF-8"
+    lines = ['<?xml version="1.0" encoding="%s"?>' % enc, "<prov:document%s>" % decl]
     if sites.on("prov-other"):
         lines.append('  <prov:other><x xmlns="http://else/">ignored</x></prov:other>')
     lines.extend(body)
@@ -288,3 +296,4 @@ def _count(doc, prefixes, sites, default):
     sites.on("prov-other")
     sites.on("shadowed-root-prefix")
     sites.on("outer-comment")
+    sites.on("latin1-declaration")
